@@ -109,7 +109,7 @@ Record probe := { pr_pkt : packet; pr_other : list N }.     (* ids of the oracle
 Record case := {
   k_cfg : cfg;
   k_raw : chains; k_mangle : chains; k_filter : chains;      (* ALL chains the real renderer produced, per table *)
-  k_fwd_append : list irule;                                 (* StaticFilterForwardAppendRules *)
+  k_hooks : list hookcall;                                   (* recorded InsertOrAppendRules / AppendRules calls of the REAL setUpIptablesNormal *)
   k_wl : list (list N * string);                             (* known workload interface -> its from-endpoint chain *)
   k_sets : list (N * list member);
   k_probes : list probe
@@ -193,18 +193,46 @@ Section Clauses.
     else true.
 End Clauses.
 
+(* 0. "on every path": the kernel's own chains, as the REAL setUpIptablesNormal wires them (k_hooks: inserted rules at
+      the head, appended rules at the end), give Felix's top-level chain the first word: whenever that chain reaches a
+      terminal verdict, it is the kernel chain's verdict; when it returns, nothing of Felix's drops the packet later *)
+Definition kernel_rules (hs : list hookcall) (t : N) (kc : string) : list irule :=
+  flat_map (fun h => match h with (t', kc', ap, rs) => if N.eqb t t' && String.eqb kc kc' && negb ap then rs else [] end) hs
+  ++ flat_map (fun h => match h with (t', kc', ap, rs) => if N.eqb t t' && String.eqb kc kc' && ap then rs else [] end) hs.
+Definition wired_ok (hs : list hookcall) (t : N) (cs : chains) (e : env) (kc top : string) (p : packet) : bool :=
+  let kv := verdict_of (run FUEL cs e (kernel_rules hs t kc) p) in
+  match hook cs e top p with
+  | VAccept => verdict_eqb kv VAccept
+  | VDrop => verdict_eqb kv VDrop
+  | VCont => not_dropped kv
+  | VErr => true
+  end.
+Definition wiring_ok (k : case) (e : env) (p : packet) : bool :=
+  wired_ok (k_hooks k) T_RAW (k_raw k) e "PREROUTING" CH_PREROUTING p
+  && wired_ok (k_hooks k) T_RAW (k_raw k) e "OUTPUT" CH_OUTPUT p
+  && wired_ok (k_hooks k) T_MANGLE (k_mangle k) e "PREROUTING" CH_PREROUTING p
+  && wired_ok (k_hooks k) T_FILTER (k_filter k) e "INPUT" CH_INPUT p
+  && wired_ok (k_hooks k) T_FILTER (k_filter k) e "FORWARD" CH_FORWARD p
+  && wired_ok (k_hooks k) T_FILTER (k_filter k) e "OUTPUT" CH_OUTPUT p.
+
 Definition probe_ok (sp se : bool) (k : case) (pr : probe) : bool :=
-  pkt_ok sp se (k_cfg k) (k_raw k) (k_mangle k) (k_filter k) (k_wl k) (probe_env k pr) (pr_pkt pr).
+  pkt_ok sp se (k_cfg k) (k_raw k) (k_mangle k) (k_filter k) (k_wl k) (probe_env k pr) (pr_pkt pr)
+  && (negb (ipver_eqb (pk_ver (pr_pkt pr)) (c_ver (k_cfg k))) || wiring_ok k (probe_env k pr) (pr_pkt pr)).
 
 (* the specification oracle, on the implementation's chains *)
 Definition ok_case (k : case) : bool := forallb (probe_ok true true k) (k_probes k).
 
 (* ------------------------------------------------------------------ model == implementation (structural) *)
+Definition hookcall_eqb (a b : hookcall) : bool :=
+  match a, b with
+  | (t, ch, ap, rs), (t', ch', ap', rs') => N.eqb t t' && String.eqb ch ch' && Bool.eqb ap ap' && rules_eqb rs rs'
+  end.
 Definition chain_agrees (impl : chains) (nb : string * list irule) : bool :=
   match lookup impl (fst nb) with Some b => rules_eqb b (snd nb) | None => false end.
 (* the shape conditions the theorems assume of the chains the static chains call hold of the real ones *)
 Definition shapes_ok (k : case) : bool :=
   hep_disp_ok (k_raw k) CH_FROM_HEP CH_FS_IN && hep_disp_ok (k_raw k) CH_TO_HEP CH_FS_OUT
+  && disp_ok (k_raw k) (raw_hep_ok CH_FS_IN) CH_FROM_HEP && disp_ok (k_raw k) (raw_hep_ok CH_FS_OUT) CH_TO_HEP
   && hep_disp_ok (k_mangle k) CH_FROM_HEP CH_FS_IN
   && hep_disp_ok (k_filter k) CH_FROM_HEP CH_FS_IN && hep_disp_ok (k_filter k) CH_TO_HEP CH_FS_OUT
   && match lookup (k_filter k) CH_FROM_WL with
@@ -219,7 +247,7 @@ Definition agrees (k : case) : bool :=
   forallb (chain_agrees (k_raw k)) (static_raw (k_cfg k))
   && forallb (chain_agrees (k_mangle k)) (static_mangle (k_cfg k))
   && forallb (chain_agrees (k_filter k)) (static_filter (k_cfg k))
-  && rules_eqb (k_fwd_append k) (forward_append (k_cfg k)).
+  && list_eqb hookcall_eqb (k_hooks k) (hook_wiring (k_cfg k)).
 
 Definition check_case (k : case) : bool * bool := (agrees k, ok_case k).
 
